@@ -163,7 +163,11 @@ def check_nesting(src: str, tok, lo: int, hi: int, where: str, env=None) -> tupl
         if cls == "PathToken" and env is not None:
             again = _relex_path(env, src[s:p])
             # (a one-word path scans as a WORD token when it stands alone: compare the text)
-            if not isinstance(again, list) or [x[1] for x in again if isinstance(x, tuple)] != [str(e)]:
+            # (and a keyword followed by a dot is a path root - `and.x` - but a keyword alone)
+            one_word = len(e.path) == 1 and e.path[0] == src[s:p]
+            if one_word and again == [("Token", src[s:p])]:
+                pass
+            elif not isinstance(again, list) or [x[1] for x in again if isinstance(x, tuple)] != [str(e)]:
                 return (f"expr-span:PathToken:relexes-differently@{where}",
                         f"{src[s:p]!r} scanned alone gives {again!r}, the token is {str(e)!r}")
         r = check_nesting(src, e, s, p, cls, env)
